@@ -10,6 +10,9 @@ mod common;
 
 fuzz_target!(|data: &[u8]| {
     let Ok(text) = std::str::from_utf8(data) else { return };
+    if common::too_deep(text) {
+        return;
+    }
     // split the input in three payloads
     let mut parts = text.splitn(3, '\u{1}');
     let a = parts.next().unwrap_or("");
